@@ -145,7 +145,7 @@ PLANS.update({
         "rule": "cluster runs with up to f stake Byzantine (classes s5 equivocator / s6 withholding leader / s7 stale-QC proposer / s8 replay storm): one omniscient adversary holding the Byzantine keys votes for every block it sees (double votes), broadcasts timeouts with the genesis QC for every round any node timed out in, assembles QCs/TCs from the honest votes/timeouts it can see, proposes two different blocks per led round to disjoint groups with late cross delivery, withholds proposals, proposes on the stalest QC its hand-picked TC allows (or an older one), makes 'wild' proposals for the round most honest nodes are in (an old QC justified by a replayed old TC or by nothing), replays tapped frames, while honest nodes are periodically split into two groups with slow cross traffic; plus honest-only crash / asynchrony / partition runs; oracle: all blocks committed by all honest nodes lie on one chain; non-trivial = a run with Byzantine actions other than plain proposals, at least one view change and >= 2 commits; distinct = distinct Core-event fingerprints",
         "assumptions": ["Byzantine stake <= f", "the local monitors (C03 C05 C09 C10 C19) run on every honest node of every run and are the early warning for breaks that only long, precisely timed attacks turn into forks (DESIGN.md Appendix D)"],
         "quick": [J("byz", c, 40, per_process=3) for c in ("s5", "s6", "s7", "s8")] + cluster_mix(24),
-        "thorough": [J("byz", c, 2500, per_process=10) for c in ("s5", "s6", "s7", "s8")] + cluster_mix(1000),
+        "thorough": [J("byz", c, 800, per_process=10) for c in ("s5", "s6", "s7", "s8")] + cluster_mix(1000),
     },
     "C13": {
         "level": "exploration",
@@ -173,7 +173,7 @@ PLANS.update({
         "rule": "a real Mempool::spawn for one authority of a committee of 2..10 (stakes equal / skewed / dominant peer / dominant self / zero-stake members); harness peers acknowledge after random delays, never, or only after their first acknowledgements were cut with the connection; oracle: at the moment an own batch's digest is read from the channel to consensus (and at its store write) the stake of self plus the peers that had WRITTEN the positional acknowledgement of that batch's frame is >= quorum; case class = (n, acknowledgement policies present, self stake)",
         "assumptions": ["an acknowledgement read by the node implies one written earlier (counting written acks is permissive)"],
         "quick": [J("c12", "x", 48, per_process=3, scenarios=20), J("c11", "x", 8, per_process=2, scenarios=20)],
-        "thorough": [J("c12", "x", 2048, per_process=16, scenarios=40)],
+        "thorough": [J("c12", "x", 1024, per_process=16, scenarios=40)],
     },
     "C14": {
         "level": "fault_enumeration",
